@@ -6,17 +6,20 @@ UNITS = {
     "c17_podctl": dict(pkg="./pkg/controller/pod", tags="default_build"),
     # the daemon's ENI factory (caller of GetOne/Block around the create call, anchor of C17)
     "c17_factory": dict(pkg="./pkg/factory/aliyun", tags="default_build"),
+    # the pod-networking controller: a further user of the control plane's one shared SwitchPool
+    "c17_podnetworking": dict(pkg="./pkg/controller/pod-networking", tags="default_build"),
 }
 
 PROPS = {
     "C17": dict(
         level="exploration",
-        technique="property-based testing (rapid): generated GetOne/Block/clock/cloud histories against a reference cache view and a per-policy validity predicate; caller-slice aliasing check; concurrent rounds under the race detector; harness-owned schedules (the fake describe is a gate: held lookups, cancelled waiters, Block, release order) followed by exact sequential probes; the pod controller's real pod-networks annotation path (decoder + ReconcilePod.ParsePodNetworksFromAnnotation + real SwitchPool) checked per network against its own list and policy; the daemon ENI factory's real CreateNetworkInterface retry loop (real SwitchPool, fake OpenAPI with stale reported counts and IpNotEnough/QuotaExceeded answers, eni_create backoff shortened through backoff.OverrideBackoff) with every create request checked against the cache view",
+        technique="property-based testing (rapid): generated GetOne/Block/clock/cloud histories against a reference cache view and a per-policy validity predicate; caller-slice aliasing check; concurrent rounds under the race detector; harness-owned schedules (the fake describe is a gate: held lookups, cancelled waiters, Block, release order) followed by exact sequential probes; the pod controller's real pod-networks annotation path (decoder + ReconcilePod.ParsePodNetworksFromAnnotation + real SwitchPool) checked per network against its own list and policy; the pod-networking controller as a further user of the one shared SwitchPool (real ReconcilePodNetworking.Reconcile over a controller-runtime fake client, interleaved with selections and Block); the daemon ENI factory's real CreateNetworkInterface retry loop (real SwitchPool, fake OpenAPI with stale reported counts and IpNotEnough/QuotaExceeded answers, eni_create backoff shortened through backoff.OverrideBackoff) with every create request checked against the cache view",
         rule="histories of GetOne/Block/advance-clock/cloud-change over 1-3 caller-owned candidate lists (0-8 ids, duplicates, unknown ids) drawn by rapid; "
              "non-trivial = some GetOne saw >= 2 distinct eligible candidates, or a candidate with a live blocked entry, or took the zone fallback; "
              "concurrent rounds: non-trivial = >= 2 goroutines overlapped on one shared slice with >= 2 possibly eligible candidates or a Block; "
              "gated schedules (scripts of start-selection[+Block] / cancel-context / release-held-describe over 1-3 vSwitches, describe calls held by a generated arrival pattern): non-trivial = a context was cancelled while a describe was held, or a Block completed while a describe was still held; "
              "pod-networks histories (pods with 1-4 networks, each with its own candidate list and policy ordered/most/random/unset, free-count changes, Block of a vSwitch a previous pod got): non-trivial = a pod with >= 2 networks one of which has >= 2 distinct eligible candidates; "
+             "shared-pool histories (GetOne / Block / cloud changes / 'PodNetworking pn-k listing ids [...] is created, edited or re-synced' through the real reconciler, one pool with ttl 10m): non-trivial = a PodNetworking listing a blocked vSwitch is synced, or a selection after a sync sees a blocked candidate; "
              "factory histories (candidate list, policy, zone, 1-5 backoff rounds; per vSwitch a reported count and whether create answers exhausted and with which code; CreateNetworkInterface calls, changes of reported count/exhaustion between calls, an occasional non-retryable create error): non-trivial = a create request was answered exhausted while >= 2 distinct candidates were eligible; "
              "distinct = distinct scenario hash",
         assumptions=[
@@ -37,12 +40,14 @@ PROPS = {
                    "after all describes are released and every goroutine is joined, probes for every zone/policy are exact (ids reported exhausted stay out with the clock unchanged, and are eligible again after expiry). "
                    "The step-settling wait only shapes which interleaving is explored, no verdict depends on it. "
                    "Pod controller: only ParsePodNetworksFromAnnotation is driven (IgnoreZone is always false there); the PodNetworking-CR path of parse() and the node controller's caller are not. "
+                   "Shared pool: the reference view treats a re-describe of an unblocked entry as a refresh (not demanded either way) but keeps a blocked entry blocked whoever looks the vSwitch up; the node controller (pkg/controller/multi-ip/node) as third user of the pool is not driven. "
                    "Factory: every create request must go to a candidate eligible in the cache view at that moment (first eligible for ordered, maximal cached count for most), never to one already answered exhausted; the call may end without an interface only when nothing eligible is left or all backoff rounds were spent on exhausted vSwitches; the eflo factory (eflo.go) and concurrent factory calls are not driven. "
                    "Describe counts (single-flight) are reported as labels, not demanded: the statement does not bound them.",
         tests=[
             dict(unit="vswitch", test="TestVerifC17Select", quick=60000, thorough=2000000),
             dict(unit="vswitch", test="TestVerifC17Gate", quick=8000, thorough=200000, shards_quick=8),
             dict(unit="c17_podctl", test="TestVerifC17PodNetworks", quick=20000, thorough=600000),
+            dict(unit="c17_podnetworking", test="TestVerifC17PodNetworking", quick=16000, thorough=500000),
             dict(unit="c17_factory", test="TestVerifC17Factory", quick=8000, thorough=400000),
             dict(unit="vswitch", test="TestVerifC17KnownWitnessShuffle", quick=1, thorough=1, shards=1),
             dict(unit="vswitch", test="TestVerifC17KnownWitnessStaleFill", quick=1, thorough=1, shards=1),
